@@ -40,6 +40,7 @@ from sqlalchemy import (
     func,
     insert,
     intersect,
+    join as sa_join,
     literal,
     not_,
     or_,
@@ -558,13 +559,17 @@ def select_desc(draw, depth=1, allow_wrap=True, orm=None):
         "wrap": None,
         "agg": None,
         "setop": None,
-        "xopt": draw(st.sampled_from([None, None, None, "nocache", "yield", "populate"])),
+        "xopt": draw(st.sampled_from([None, None, None, "foo", "yield", "populate"])),
+        "xjoin": draw(st.sampled_from([0, 1])),
     }
-    shape = draw(st.sampled_from(["cols", "cols", "ent", "agg"]))
+    shape = draw(st.sampled_from(["cols", "ent", "ent", "agg"] if orm else ["cols", "cols", "ent", "agg"]))
     if shape == "ent":
         d["cols"] = None  # whole table / entity (+ second entity of the first join in ORM mode)
         if orm:
-            d["opts"] = draw(st.lists(_opt(), max_size=3))
+            d["opts"] = draw(st.lists(_opt(), min_size=draw(st.integers(0, 1)), max_size=3))
+            for o in d["opts"]:
+                if o["o"] == "wlc" and draw(st.booleans()):
+                    o["ent"] = d["base"]  # criteria on the lead entity always take effect
             d["contains_eager"] = draw(st.sampled_from([0, 0, 1]))
     elif shape == "agg":
         d["cols"] = None
@@ -608,7 +613,7 @@ def dml_desc(draw, depth=1):
     k = draw(st.sampled_from(["ins", "ins", "upd", "upd", "del", "insfs"]))
     t = draw(st.integers(0, 2))
     ret = draw(st.one_of(st.none(), st.lists(st.integers(0, 3), min_size=1, max_size=3)))
-    d = {"k": k, "t": t, "ret": ret, "orm": 0}
+    d = {"k": k, "t": t, "ret": ret, "orm": 0, "pvals": [["li", b] for b in draw(st.lists(_base, min_size=6, max_size=6))]}
     if k == "ins":
         d["vals"] = draw(st.lists(st.tuples(st.integers(0, 2), lit_int_expr()).map(list), max_size=2))
         d["sval"] = draw(st.one_of(st.none(), _slit))
@@ -641,13 +646,18 @@ def stmt_desc(depth=1):
 SEL_TOGGLES = [
     "distinct", "outer0", "full0", "label0", "limit", "offset", "for_update", "prefix", "col_order", "label_style",
     "lit_type", "cast_type", "literal_execute", "where_drop", "order_desc", "op_flip", "in_neg", "wrap_name", "setop_op",
-    "join_drop", "loader", "opt_drop", "total", "wlc_flag", "having_op", "agg_fn", "where_dup", "xopt",
+    "join_drop", "loader", "opt_drop", "total", "wlc_flag", "having_op", "agg_fn", "where_dup", "xopt", "nocache_type", "delta_type", "xjoin", "wlc_op",
 ]
-DML_TOGGLES = ["ret", "ret_more", "pcols_more", "many", "val_drop", "where_drop", "op_flip", "lit_type", "in_neg", "sync", "sval", "literal_execute"]
+DML_TOGGLES = ["ret", "ret_more", "pcols_more", "many", "val_drop", "where_drop", "op_flip", "lit_type", "in_neg", "sync", "sval", "literal_execute", "nocache_type", "delta_type"]
 
 
 def toggles_for(desc):
     return SEL_TOGGLES if desc["k"] == "sel" else DML_TOGGLES
+
+
+def relevant_toggles(desc):
+    """the toggles that actually change this description"""
+    return [n for n in toggles_for(desc) if apply_toggles(desc, [n]) != desc]
 
 
 def _walk(node, fn):
@@ -682,7 +692,10 @@ def _toggle(d, name):
     def flip(key):
         d[key] = 0 if d.get(key) else 1
 
-    if name in ("distinct", "for_update", "prefix", "total"):
+    if name == "xjoin":
+        if d.get("joins") and not d.get("orm"):
+            flip("xjoin")
+    elif name in ("distinct", "for_update", "prefix", "total"):
         if name in d:
             if name == "for_update" and (d.get("wrap") or d.get("setop")):
                 return
@@ -720,6 +733,17 @@ def _toggle(d, name):
                 return True
             if n[0] == "ls":
                 n[:] = ["lt", n[1], "t"]
+                return True
+        _walk(d, f)
+    elif name in ("nocache_type", "delta_type"):
+        def f(n):
+            if n[0] == "li" or (n[0] == "lt" and n[2] in ("i", "I", "D1", "D2", "N")):
+                cur = n[2] if n[0] == "lt" else "i"
+                if name == "nocache_type":
+                    new = "i" if cur == "N" else "N"
+                else:
+                    new = "D2" if cur == "D1" else "D1"
+                n[:] = ["lt", n[1], new]
                 return True
         _walk(d, f)
     elif name == "cast_type":
@@ -777,6 +801,24 @@ def _toggle(d, name):
     elif name == "opt_drop":
         if d.get("opts"):
             d["opts"].pop()
+    elif name == "wlc_op":
+        for o in d.get("opts", []):
+            if o["o"] == "wlc":
+                def f(n):
+                    if n[0] == "cmp":
+                        n[1] = _FLIP[n[1]]
+                        return True
+                    if n[0] in ("in", "isn"):
+                        n[-1 if n[0] == "isn" else 3] = not n[-1 if n[0] == "isn" else 3]
+                        return True
+                    if n[0] == "btw":
+                        n[:] = ["not", list(n)]
+                        return True
+                    if n[0] == "like":
+                        n[2] = "starts" if n[2] != "starts" else "contains"
+                        return True
+                _walk([o["crit"]], f)
+                break
     elif name == "wlc_flag":
         for o in d.get("opts", []):
             if o["o"] == "wlc":
@@ -784,7 +826,7 @@ def _toggle(d, name):
                 break
     elif name == "xopt":
         if "xopt" in d:
-            order = [None, "nocache", "yield", "populate"]
+            order = [None, "foo", "yield", "populate"]
             d["xopt"] = order[(order.index(d["xopt"]) + 1) % 4]
     elif name == "having_op":
         if d.get("agg") and d["agg"]["having"]:
@@ -907,6 +949,9 @@ def _core_select(d, order, params):
     steps = []
     base_from = ENTS[scope[0]] if orm else TABLES[scope[0]]
     steps.append(("from", lambda s: s.select_from(base_from)))
+    # construction variant: one explicit Join object passed to select_from() instead of Select.join() calls
+    explicit_join = bool(d.get("xjoin")) and not orm
+    cur_join = [base_from]
     in_scope = [scope[0]]
     for t, j in joins:
         on_env = Env([src[x] for x in in_scope + [t]], params, orm)
@@ -919,8 +964,13 @@ def _core_select(d, order, params):
         if on is None:
             on = src[t][1]("id") == src[in_scope[0]][1]("id")
         target = ENTS[t] if orm else TABLES[t]
-        steps.append(("join", lambda s, target=target, on=on, j=j: s.join(target, on, isouter=bool(j["outer"]), full=bool(j["full"]))))
+        if explicit_join:
+            cur_join[0] = sa_join(cur_join[0], target, on, isouter=bool(j["outer"]), full=bool(j["full"]))
+        else:
+            steps.append(("join", lambda s, target=target, on=on, j=j: s.join(target, on, isouter=bool(j["outer"]), full=bool(j["full"]))))
         in_scope.append(t)
+    if explicit_join and joins:
+        steps[0] = ("from", lambda s: s.select_from(cur_join[0]))
     for w in d["where"]:
         steps.append(("where", lambda s, w=w: s.where(bx(w, env))))
     if d.get("agg"):
@@ -1038,13 +1088,13 @@ def _build_option(o, ent_t, env):
 WRAP_NAMES = ["w0", "w1"]
 
 
-XOPTS = {"nocache": {"compiled_cache": None}, "yield": {"yield_per": 2}, "populate": {"populate_existing": True}}
+XOPTS = {"foo": {"foo": 1}, "yield": {"yield_per": 2}, "populate": {"populate_existing": True}}
 
 
 def _build_select(d, order):
     b = _build_select_inner(d, order)
     x = d.get("xopt")
-    if x:
+    if x and not (x == "yield" and b.unique):  # yield_per + unique() is a documented error
         b.stmt = b.stmt.execution_options(**XOPTS[x])
     return b
 
@@ -1202,17 +1252,8 @@ def _build_dml(d, order):
 
 
 def _dml_param_values(d):
-    """concrete literal values found in the (concretized) description, used as
-    execute()-level parameter values; falls back to fixed tokens"""
-    out = []
-
-    def f(n):
-        if n[0] == "v" and isinstance(n[1], int):
-            out.append(n[1] + 50)
-        return False
-
-    _walk(d, f)
-    return out or [int_token(4, 97), int_token(5, 98), int_token(6, 99)]
+    """execute()-level parameter values: dedicated tagged literals of the (concretized) description"""
+    return [n[1] for n in d["pvals"]]
 
 
 # ------------------------------------------------------------------ result normalisation
